@@ -13,6 +13,22 @@ functions equal the hand-written model definitions for ALL states and arguments,
 the Rust source breaks a proof obligation.  An item may belong to several groups (`a+b`); it is written to the
 file of the first.
 
+LOOKUP of functions that are not in the item table.  When a translated function calls a function or method that is
+neither listed in MACHINES nor part of the fixed vocabulary, it is searched in the SOURCE: an unqualified `f(..)` in
+the caller's `mod`, then at the top level of the caller's file; `x.m(..)` / `Type::m(..)` / `Self::m(..)` in every
+`impl` block (inherent or trait) of that translated type in the caller's file, then in the file that declares the
+type; `m::f(..)` in `mod m` of the caller's file.  Found exactly once it is translated on demand -- transitively --
+as an AUXILIARY item of the caller's group(s): its file, line and source hash go into the header of the generated
+file, its definition is emitted before its first caller.  It is rejected (and with it the caller) only if it cannot
+be found, is found more than once, or falls outside the accepted subset.  This makes the tie indifferent to the
+most common harmless refactoring, the extraction of a private helper.
+
+SIMP SETS.  Every generated definition (listed functions, auxiliary items, instances of generic functions, derived
+`Default` / `Constructor` items) carries the attribute `gen_<group>` of each group of the table item it was
+generated for (registered in lean/BarterModel/Generated/Attr.lean); an auxiliary definition / instance that a later
+group uses as well joins that group's set (`attribute [gen_<group>] name`).  Agreement proofs unfold "everything
+generated for this group" with `simp only [gen_<group>, ..]` and never name an auxiliary definition.
+
 Translation scheme
   fn f(&mut self, a: A) -> R   |->  def S.f (self : S) (a : A) : S x R      (state passing; R = () gives S)
   fn f(&self, a: A) -> R       |->  def S.f (self : S) (a : A) : R
@@ -66,7 +82,14 @@ Accepted Rust subset (delta to tools/rust2lean.py, which covers straight-line De
           Decimal with `std::cmp::Ordering`, `Utc::now()` (the explicit parameter `utc_now`, at most one reading per
           function), `t.add(d)` on DateTime, `.abs()` on i64, `Arc<T>` / `RwLock<T>` as `T` with `Arc::new(e)`,
           `RwLock::new(e)`, `x.read()`, `let mut g = <place>.write();` (write-back alias), `drop(local);`, a binder arm
-          `x if c =>` in a guarded `match`,
+          `x if c =>` in a guarded `match`, `matches!(e, p | q if g)` (by definition `match e { p | q if g => true, _ =>
+          false }`), a `match` on an Option whose arms combine `Some(<irrefutable>)` / `None` / `_` / or-patterns of these
+          with guards that may use the binders (`Some(x) if c => .., Some(_) | None => ..`): a decision on the constructor
+          first, the arms' guards in source order second, each chain ending in an unguarded arm; the same with the
+          scrutinee `&mut <place>` (statement position), where the binder of `Some(x)` is a mutable alias of the payload
+          (every change written back at once, as for `let Some(x) = &mut <place> else ..`); a generic fn without
+          receiver whose type parameters are only stored / copied / compared keeps them as parameters (the instantiation
+          at Decimal / i64 / u64 is the fallback for bodies that do arithmetic on `T`),
           `.checked_div(e)`, `t.signed_duration_since(u)`, `d.num_milliseconds()`, `Decimal::from(<u64>)`,
           `<u64> as i64`, `&e`, `*e`, `x.0`, `==` / `!=` on type-parameter and opaque values, calls of `&self` /
           by-value methods and associated fns of translated structs, calls of translated free fns;
@@ -315,6 +338,16 @@ def Decimal.MAX : Rat := 79228162514264337593543950335
 
 /-- `Decimal::MIN` = -(2^96 - 1). -/
 def Decimal.MIN : Rat := -79228162514264337593543950335
+
+/-- `std::cmp::Ordering` (`a.cmp(&b)` on `Decimal` is `Decimal.cmp`, below). -/
+inductive Ordering where
+  | Less
+  | Equal
+  | Greater
+  deriving DecidableEq, Repr
+
+/-- `Ord::cmp` of `Decimal` (a total order; rust_decimal compares values, not representations). -/
+def Decimal.cmp (x y : Rat) : Ordering := if x < y then Ordering.Less else if x = y then Ordering.Equal else Ordering.Greater
 """
 
 AGREE2 = ["DataSetSM", "PnLReturnsSM", "RegistersSM", "RiskSM", "MetricsSM", "ClockSM"]
@@ -366,7 +399,7 @@ PRELUDE2 = """\
   `1000` / `1` ms; `a.max(b)` on `TimeDelta` is the greater; `Decimal::from(<i64>)` is the inclusion `Int → Rat`.
 * `x.sqrt()` on a `Decimal` (rust_decimal's `MathematicalOps::sqrt`, NOT `statistic::algorithm::sqrt`) is a built-in
   extern: the explicit parameter `decimal_sqrt : Rat → Option Rat`, about which nothing is assumed.
-* `a.cmp(&b)` on `Decimal` is `Decimal.cmp` into `std::cmp::Ordering` (below).
+* `a.cmp(&b)` on `Decimal` is `Decimal.cmp` into `std::cmp::Ordering` (prelude of Machines.lean).
 * `Utc::now()` is an INPUT: the explicit parameter `utc_now : Int` (ms, like every `DateTime`) of the function that
   reads it; a function may read it once only (two readings would be two different inputs: rejected), and functions
   that take it cannot be called from translated code. `t.add(d)` on a `DateTime` is `t + d`; `x.abs()` on `i64` is
@@ -376,16 +409,6 @@ PRELUDE2 = """\
   the content; `let mut g = <place>.write();` binds `g` to the content as a mutable local whose every change is
   written back to the place at once (as for `&mut`, see above); `drop(g);` has no effect.
 * In a `match` with guards an arm `x if c => ..` names the (pure) scrutinee `x`. -/
-
-/-- `std::cmp::Ordering`. -/
-inductive Ordering where
-  | Less
-  | Equal
-  | Greater
-  deriving DecidableEq, Repr
-
-/-- `Ord::cmp` of `Decimal` (a total order; rust_decimal compares values, not representations). -/
-def Decimal.cmp (x y : Rat) : Ordering := if x < y then Ordering.Less else if x = y then Ordering.Equal else Ordering.Greater
 
 /-- The four comparison methods of `PartialOrd` for a type parameter (see above). -/
 structure Rust.PartialOrd (T : Type) where
@@ -518,6 +541,127 @@ def find_item(text, container, kind, name):
             raise Reject(f"`{kind} {name}` has no body")
         return start, j + 1, gs, sty
     return start, match_brace(text, j) + 1, gs, sty
+
+
+def impl_blocks(text):
+    """every top-level `impl .. { .. }` block: (body lo, body hi, generics [token lists], trait tokens | None, type tokens)"""
+    out = []
+    for m in re.finditer(r"\bimpl\b([^{;]*)\{", text):
+        if depth_at(text, 0, m.start()) != 0:
+            continue
+        gs, tr, ty = split_impl_header(m.group(1))
+        out.append((m.end(), match_brace(text, m.end() - 1), gs, tr, ty))
+    return out
+
+
+def base_name(ty_toks):
+    """`a::b::Name<..>` -> `Name`"""
+    out = None
+    for v in ty_toks:
+        if v == "<":
+            break
+        if re.fullmatch(r"[A-Za-z_]\w*", v):
+            out = v
+    return out
+
+
+def fn_spans(text, lo, hi, name):
+    """(start, end) of every `fn name .. { .. }` directly inside text[lo:hi]"""
+    out = []
+    for m in re.finditer(r"\bfn\s+%s\b" % re.escape(name), text[lo:hi]):
+        if depth_at(text, lo, lo + m.start()) != 0:
+            continue
+        start = lo + m.start()
+        j = start
+        while j < hi and text[j] not in "{;":
+            j += 1
+        if j < hi and text[j] == "{":
+            out.append((start, match_brace(text, j) + 1))
+    return out
+
+
+class Ctx:
+    """the table item being translated: auxiliary items found by lookup belong to its groups"""
+
+    def __init__(self, groups, rel, container):
+        self.groups, self.rel, self.container = list(groups), rel, container
+
+
+def aux_translate(world, cont, name):
+    """LOOKUP of a function / method that is called by a translated function but is not in the item table (typically a
+    private helper extracted by a refactoring): it is searched in the file of the caller -- `cont` None: the caller's
+    `mod`, then the file's top level; `cont` a translated type: every `impl` block of that type (also in the file that
+    declares the type); otherwise `mod cont` of the file -- and translated on demand as an AUXILIARY item of the
+    caller's group(s) (its source hash goes into the header, its definition into the group's simp set).
+    Returns the key it is registered under, or None if there is no such function; raises Reject if it exists but is
+    ambiguous / outside the accepted subset."""
+    ctx = world.ctx
+    if ctx is None:
+        return None
+    shown = (cont + "::" if cont else "") + name
+    if (cont, name) in world.aux_failed:
+        raise Reject(world.aux_failed[(cont, name)])
+    if (cont, name) in world.aux_busy:
+        raise Reject(f"recursive call of `{shown}`")
+    files = [ctx.rel]
+    if cont is not None and world.item_file.get(cont) not in (None, ctx.rel):
+        files.append(world.item_file[cont])
+    cands = []
+    for rel in files:
+        raw, text = world.source(rel)
+        if cont is None:
+            if ctx.container and ctx.container.startswith("mod ") and rel == ctx.rel:
+                lo, hi, _, _ = find_container(text, ctx.container)
+                cands = [(rel, a, b, [], None, ctx.container, None) for a, b in fn_spans(text, lo, hi, name)]
+            if not cands:
+                cands = [(rel, a, b, [], None, None, None) for a, b in fn_spans(text, 0, len(text), name)]
+        elif cont in world.structs or cont in world.enums:
+            for lo, hi, gs, tr, ty in impl_blocks(text):
+                if base_name(ty) == cont:
+                    label = "impl " + ("".join(tr) + " for " if tr else "") + "".join(ty)
+                    cands += [(rel, a, b, gs, ty, label, (lo, hi) if tr else None) for a, b in fn_spans(text, lo, hi, name)]
+        else:
+            hits = [m for m in re.finditer(r"\bmod\s+%s\s*\{" % re.escape(cont), text) if depth_at(text, 0, m.start()) == 0]
+            if len(hits) == 1:
+                lo, hi = hits[0].end(), match_brace(text, hits[0].end() - 1)
+                cands = [(rel, a, b, [], None, "mod " + cont, None) for a, b in fn_spans(text, lo, hi, name)]
+        if cands:
+            break
+    if not cands:
+        return None
+    rel, a, b, gs, sty_toks, label, assoc_span = cands[0]
+    where = f"{rel} :: " + (label + " :: " if label else "") + f"fn {name}"
+    try:
+        if len(cands) > 1:
+            raise Reject(f"found {len(cands)} times")
+        for g in gs:
+            if len(g) != 1:
+                raise Reject(f"`{label}`: bound / lifetime on impl parameter `{' '.join(g)}` (only a `where` clause is accepted)")
+        world.aux_busy.add((cont, name))
+        saved = world.ctx
+        world.ctx = Ctx(ctx.groups, rel, label)
+        try:
+            raw, text = world.source(rel)
+            out, sha, line = translate(world, text, raw, label, "fn", name, {}, loc=(a, b, [g[0] for g in gs], sty_toks, assoc_span))
+        finally:
+            world.ctx = saved
+            world.aux_busy.discard((cont, name))
+    except Reject as ex:
+        msg = f"call of `{shown}`, which is not in the item table; looked up as {where}: {ex}"
+        world.aux_failed[(cont, name)] = msg
+        raise Reject(msg)
+    lead = ""
+    while out.startswith("-- "):
+        c, out = out.split("\n", 1) if "\n" in out else (out, "")
+        lead += c + "\n"
+    if out:
+        world.pending.append(f"{lead}/-- AUXILIARY item (not in the item table: found by lookup from a translated caller), generated from "
+                             f"`{(label + ' :: ' if label else '')}fn {name}` ({rel}:{line}) -/\n{out}")
+    else:
+        world.pending.append(f"-- auxiliary `{(label + ' :: ' if label else '')}fn {name}` ({rel}:{line}) {lead[3:].rstrip()}")
+    world.aux_header.append(f"    + auxiliary (by lookup): {where}  (line {line})  sha256[:16]={sha}")
+    key = world.aux_key
+    return key
 
 
 def attributes_before(text, start):
@@ -1172,6 +1316,25 @@ class Parser:
                     elif x == "<end>":
                         raise Reject(f"unterminated `{shown}!`")
                 return ("panic", shown)
+            if shown == "matches" and self.peek(1) == "(":
+                # `matches!(e, p | q if g)` is by definition `match e { p | q if g => true, _ => false }`
+                self.next()
+                self.eat("(")
+                scrut = self.expr()
+                self.eat(",")
+                pats = [self.pattern()]
+                while self.peek() == "|":
+                    self.next()
+                    pats.append(self.pattern())
+                guard = None
+                if self.peek() == "if":
+                    self.next()
+                    guard = self.expr()
+                if self.peek() == ",":
+                    self.next()
+                self.eat(")")
+                return ("match", scrut, [(pats, guard, ("block", [], ("path", ["true"]))),
+                                         ([("pwild",)], None, ("block", [], ("path", ["false"])))])
             raise Reject(f"macro `{shown}!`")
         if self.peek() == "(":
             return ("call", segs, self.args(shown))
@@ -1468,10 +1631,28 @@ class World:
         self.externs["from_f64"] = ([F64], ("opt", DEC), "F64 → Option Rat")     # built in: `Decimal::from_f64`
         self.traits = {}          # translated traits: name -> {method: ([param types], ret type)}  (`Self` is ("tvar", "Self"))
         self.enums["Ordering"] = Enum("Ordering", [("Less", "unit", []), ("Equal", "unit", []), ("Greater", "unit", [])], [])
-        self.lean_names.add("Ordering")     # `std::cmp::Ordering`: defined in PRELUDE2
+        self.lean_names.add("Ordering")     # `std::cmp::Ordering`: defined in PRELUDE
         self.externs["decimal_sqrt"] = ([DEC], ("opt", DEC), "Rat → Option Rat")   # built in: `Decimal::sqrt` (MathematicalOps)
         self.externs["utc_now"] = ([], TIME, "Int")                                 # built in: the one reading of `Utc::now()`
         self.tvar_ops = set()     # externs of the form `T_ord`: PartialOrd methods of a type PARAMETER (not passed on by callers)
+        self.ctx = None           # Ctx of the table item being translated (groups / file / container)
+        self.cache = {}           # rel -> (raw text, text with comments blanked)
+        self.item_file = {}       # translated struct / enum name -> file that declares it
+        self.aux_header = []      # header lines of the auxiliary items found while translating the current table item
+        self.aux_failed = {}      # (container, name) -> message: lookup found it, translation was rejected
+        self.aux_busy = set()     # auxiliary items being translated (recursion guard)
+        self.aux_names = set()    # Lean names of definitions that are NOT table items (auxiliary items, generic instances)
+        self.aux_key = None       # key under which the most recent `fn` item was registered
+        self.attr_groups = {}     # Lean name -> groups in whose simp set (`gen_<group>`) the definition is
+
+    def source(self, rel):
+        if rel not in self.cache:
+            path = os.path.join(REPO, rel)
+            if not os.path.exists(path):
+                raise Reject(f"source file {path} does not exist")
+            raw = open(path, encoding="utf-8").read()
+            self.cache[rel] = (raw, blank_comments(raw))
+        return self.cache[rel]
 
 
 class TypeResolver:
@@ -1602,6 +1783,10 @@ def atom(s):
 
 # ------------------------------------------------------------------------------------------ compiler
 
+# method names with a fixed meaning (cx_mcall / effect): never looked up in the source
+BUILTIN_METHODS = set("""clone add abs cmp sqrt num_seconds max is_zero checked_div checked_mul checked_add checked_sub then_some is_some
+is_none as_ref is_none_or is_some_and map or unwrap_or replace expect unwrap is_sign_negative take signed_duration_since
+num_milliseconds read write push""".split())
 TIMEDELTA_MS = {"days": 86400000, "hours": 3600000, "minutes": 60000, "seconds": 1000, "milliseconds": 1}
 ARITH = (DEC, INT, NAT, DELTA, INTLIT)
 ORDERED = (DEC, INT, NAT, DELTA, TIME, INTLIT)
@@ -1628,8 +1813,22 @@ class Compiler:
         if x not in self.externs:
             self.externs.append(x)
 
+    def method_fn(self, sname, mname):
+        """the translated method / associated fn `sname::mname`; if it is not translated yet it is looked up in the source
+        (aux_translate) and translated on demand.  None if there is no such function."""
+        key = (sname, mname)
+        if key not in self.w.fns and key not in self.w.failed and key not in self.w.generic_fns and mname not in BUILTIN_METHODS:
+            aux_translate(self.w, sname, mname)
+        return self.w.fns.get(key)
+
     def fname(self, fn):
         """Lean head of a call of the translated fn: its name followed by the extern functions it is parameterised by"""
+        ctx = self.w.ctx
+        if ctx is not None and fn.lean in self.w.aux_names and not set(ctx.groups) <= self.w.attr_groups.get(fn.lean, set()):
+            # an auxiliary definition generated for another group is used by this group too: it joins its simp set
+            new = [g for g in ctx.groups if g not in self.w.attr_groups.get(fn.lean, set())]
+            self.w.pending.append("attribute [" + ", ".join("gen_" + g for g in new) + f"] {fn.lean}")
+            self.w.attr_groups.setdefault(fn.lean, set()).update(new)
         for x in fn.externs:
             if x in self.w.tvar_ops:
                 raise Reject(f"call of `{fn.lean}`, which is parameterised by the ordering of a type parameter (`{x}`)")
@@ -1736,6 +1935,8 @@ class Compiler:
                 raise Reject(f"`if` branches of different types {ty_rust(a.ty)} / {ty_rust(b.ty)}")
             pad = "  " * ind
             return V(f"(if {c} then\n{pad}  {self.val(a)}\n{pad}else\n{pad}  {self.val(b)})", u)
+        if k == "match" and self.is_optmatch(e):
+            return self.c_optmatch(e, env, None, ind, expect)
         if k == "match" and self.is_chain(e):
             conds = self.chain_of(e, env, ind)
             pad = "  " * ind
@@ -1932,6 +2133,14 @@ class Compiler:
             vs = [self.cx(a, env, ind, t) for a, (_, t) in zip(args, var[2])]
             return V("(" + " ".join([f"{en.name}.{name}"] + [atom(self.val(v)) for v in vs]) + ")", ("enum", en.name))
         key = self.lookup_fn(segs)
+        known = lambda k: k in self.w.generic_fns or k in self.w.fns
+        if not known(key) and not (key[1] in self.w.externs and len(segs) == 1) and key not in self.w.failed:
+            ctx = self.w.ctx
+            sibling = (ctx.container.split()[1], key[1]) if key[0] is None and ctx and ctx.container and ctx.container.startswith("mod ") else None
+            if sibling is not None and known(sibling):
+                key = sibling              # unqualified call of a translated fn of the same `mod`
+            else:
+                key = aux_translate(self.w, key[0], key[1]) or key
         if key in self.w.generic_fns:
             vs = [self.cx(a, env, ind) for a in args]
             fn = self.instantiate(key, vs, shown)
@@ -2058,7 +2267,7 @@ class Compiler:
         _, recv, name, args = e
         r = self.cx(recv, env, ind)
         t = r.ty
-        if t[0] == "struct" and (t[1], name) in self.w.fns:
+        if t[0] == "struct" and self.method_fn(t[1], name) is not None:
             fn = self.w.fns[(t[1], name)]
             if fn.mode == "mut":
                 raise Reject(f"call of the `&mut self` method `.{name}(..)` inside a larger expression (accepted only as a whole statement / initialiser / tail)")
@@ -2319,6 +2528,108 @@ class Compiler:
         """an ordered `match` that becomes an if-chain (guards allowed, binder-free patterns only)"""
         return self.needs_order(e) and not self.is_ordered(e)
 
+    def is_optmatch(self, e):
+        """a `match` on an Option that neither the if-chain nor the plain Lean `match` reading covers: guards together
+        with `Some(..)` patterns (`Some(x) if c => .., Some(_) | None => ..`), or the scrutinee `&mut <place>` (the
+        binder of `Some(x)` is then a mutable alias of the payload).  Compiled by c_optmatch as a decision on the
+        constructor first and the guards, in source order, second."""
+        if e[0] != "match":
+            return False
+        pats = [p for ps, _, _ in e[2] for p in ps]
+        if not all(p[0] == "pwild" or (p[0] == "ppath" and p[1] == ["None"]) or (p[0] == "pctor" and p[1] == ["Some"] and len(p[2]) == 1)
+                   for p in pats):
+            return False
+        if e[1][0] == "mutref":
+            return True
+        return any(g is not None for _, g, _ in e[2]) and any(p[0] == "pctor" for p in pats)
+
+    def c_optmatch(self, e, env, k, ind, expect):
+        """`match <Option> { arms }` with guards / `Some(..)` patterns / or-patterns / `_`, arms tried in source order:
+            match s with | none => <the arms that can match None, as an if-chain over their guards>
+                         | some v => <the arms that can match Some, as an if-chain over their guards>
+        Each chain must end in an unguarded arm (exhaustiveness is not decided by the translator).  k None: the match is
+        a pure value (returns V); otherwise a statement / tail whose fall-through continues with k (returns text).
+        Scrutinee `&mut <place>` (statement mode): the binder of `Some(x)` is a mutable local aliasing the payload, every
+        change of it is written back to the place at once (as for `let Some(x) = &mut <place> else ..`, see c_let)."""
+        pad = "  " * ind
+        sx, lines, alias = e[1], [], None
+        if sx[0] == "mutref":
+            if k is not None:
+                lv = self.lvalue(sx[1], env)
+                if not lv or not env[lv[0]].mut or env[lv[0]].alias:
+                    raise Reject("`match &mut <place>` on something that is not a field path of a mutable variable")
+                if any(v.alias and v.alias[:2] == (lv[0], list(lv[1])) for v in env.values()):
+                    raise Reject("second `&mut` borrow of the same place")
+                alias = (lv[0], list(lv[1]), "some")
+            s = self.cx(sx[1], env, ind + 1)
+        elif k is not None:
+            lines, s = self.head(sx, env, ind)
+        else:
+            s = self.cx(sx, env, ind + 1)
+        if s.ty[0] != "opt" or has_hole(s.ty):
+            raise Reject(f"`match` with `Some(..)` / `None` patterns on a value of type {ty_rust(s.ty)}")
+        none_arms, some_arms = [], []
+        for pats, guard, body in e[2]:
+            if any(p[0] in ("pwild", "ppath") for p in pats):
+                none_arms.append((None, guard, body))
+            somes = [p for p in pats if p[0] in ("pwild", "pctor")]
+            if somes:
+                q = None
+                if len(pats) == 1 and pats[0][0] == "pctor":
+                    q = pats[0][2][0]
+                elif any(p[0] == "pctor" and p[2][0][0] != "pwild" for p in somes):
+                    raise Reject("or-pattern `p | q` with binders")
+                some_arms.append((q, guard, body))
+        payload = self.fresh("some")
+        state = {"u": expect}
+
+        def body_text(body, env_arm, ind2):
+            if k is not None:
+                return self.cs(body[1], 0, body[2], env_arm, k, ind2, expect)
+            b = self.pure_block(body, env_arm, ind2, state["u"])
+            u2 = unify(state["u"], b.ty) if state["u"] else b.ty
+            if u2 is None:
+                raise Reject("match arms of different types")
+            state["u"] = u2
+            return "  " * ind2 + self.val(b)
+
+        def chain(arms, j, ind2, is_some):
+            if j == len(arms):
+                raise Reject("a `match` on an Option with guards must end in an unguarded arm for `Some(..)` and one for `None` "
+                             "(exhaustiveness is not decided by the translator)")
+            q, guard, body = arms[j]
+            env_arm, pre, close = env, "", ""
+            if is_some and q is not None and q[0] not in ("pwild", "pbind") and self.irrefutable(q) and not alias:
+                pt, env_arm = self.cpat(q, s.ty[1], env)
+                pre, close = "  " * ind2 + f"(match {payload} with\n" + "  " * ind2 + f"| {pt} =>\n", ")"
+                ind2 += 1
+                q = None
+            pad2 = "  " * ind2
+            if is_some and q is not None and q[0] != "pwild":
+                if not self.irrefutable(q):
+                    raise Reject("nested refutable pattern")
+                if q[0] == "pbind":
+                    lean, env_arm = self.bind(q[1], s.ty[1], bool(alias) or q[2], env)
+                    if alias:
+                        env_arm[q[1]].alias = alias
+                    pre = f"{pad2}let {lean} : {ty_lean(s.ty[1])} := {payload}\n"
+                else:
+                    if alias:
+                        raise Reject("`match &mut <place>` with a pattern other than `Some(x)` / `Some(_)`")
+                    pt, env_arm = self.cpat(q, s.ty[1], env)
+                    pre, close = f"{pad2}(match {payload} with\n{pad2}| {pt} =>\n", ")"
+            if guard is None:
+                return pre + body_text(body, env_arm, ind2) + close
+            g = self.prop(self.cx(guard, env_arm, ind2 + 1))
+            return (pre + f"{pad2}(if {g} then\n" + body_text(body, env_arm, ind2 + 1) + f"\n{pad2}else\n"
+                    + chain(arms, j + 1, ind2 + 1, is_some) + ")" + close)
+
+        text = "\n".join(lines + [f"{pad}(match {self.val(s)} with\n{pad}| none =>\n" + chain(none_arms, 0, ind + 1, False)
+                                  + f"\n{pad}| some {payload} =>\n" + chain(some_arms, 0, ind + 1, True) + ")"])
+        if k is not None:
+            return text
+        return V(text.lstrip(), state["u"])
+
     def total_enums(self, ty):
         """an ordered Lean match may only take apart enums whose every value is represented"""
         if ty[0] == "enum":
@@ -2528,7 +2839,7 @@ class Compiler:
             return ("push", lv, pl)
         if e[2] == "replace" and len(e[3]) == 1 and pl.ty[0] == "opt":
             return ("replace", lv, pl)
-        if pl.ty[0] == "struct" and (pl.ty[1], e[2]) in self.w.fns and self.w.fns[(pl.ty[1], e[2])].mode == "mut":
+        if pl.ty[0] == "struct" and self.method_fn(pl.ty[1], e[2]) is not None and self.w.fns[(pl.ty[1], e[2])].mode == "mut":
             return ("call", lv, pl)
         return None
 
@@ -2835,6 +3146,8 @@ class Compiler:
             a = self.cs(e[2][1], 0, e[2][2], env, k, ind + 1, expect)
             b = self.cs(e[3][1], 0, e[3][2], env, k, ind + 1, expect) if e[3] else k(V("()", UNIT), env, ind + 1)
             return f"{pad}(if {c} then\n{a}\n{pad}else\n{b})"
+        if kind == "match" and self.is_optmatch(e):
+            return self.c_optmatch(e, env, k, ind, expect)
         if kind == "match" and self.is_chain(e):
             conds = self.chain_of(e, env, ind)
             def go(j, ind2):
@@ -3029,12 +3342,30 @@ def translate_trait(world, text, raw, name):
     return note + "\n" + out, sha, line
 
 
-def translate(world, text, raw, container, kind, name, opts):
-    """returns (lean text of the item, sha of its source text, line)"""
+def with_attr(world, out):
+    """`def ..` -> `@[gen_<group>, ..] def ..`: every generated definition is in the simp set of the group(s) of the table
+    item it was generated for, so that agreement proofs can unfold "everything generated for this group" without
+    knowing the names of auxiliary definitions"""
+    assert out.startswith("def "), out[:40]
+    lname = out.split()[1]
+    groups = list(world.ctx.groups) if world.ctx else []
+    world.attr_groups.setdefault(lname, set()).update(groups)
+    return ("@[" + ", ".join("gen_" + g for g in groups) + "] " if groups else "") + out
+
+
+def translate(world, text, raw, container, kind, name, opts, loc=None):
+    """returns (lean text of the item, sha of its source text, line); loc = (start, end, impl generics, impl self type
+    tokens, span of the trait impl | None) of an item that was located by aux_translate"""
     if kind == "trait":
         return translate_trait(world, text, raw, name)
     src_kind = {"opaque": opts.get("item", "struct"), "derive_default": "struct", "derive_new": "struct", "extern": "fn"}.get(kind, kind)
-    a, b, igs, sty_toks = find_item(text, container, src_kind, name)
+    assoc_span = None
+    if loc is not None:
+        a, b, igs, sty_toks, assoc_span = loc
+    else:
+        a, b, igs, sty_toks = find_item(text, container, src_kind, name)
+        if kind == "fn" and container and container.startswith("impl") and " for " in container:
+            assoc_span = find_container(text, container)[:2]
     attrs = []
     if kind in ("derive_default", "derive_new"):
         a0, attrs = attributes_before(text, a)
@@ -3096,7 +3427,7 @@ def translate(world, text, raw, container, kind, name, opts):
                 raise Reject(f"derived `Default` of the generic struct `{name}`")
             vals = [f"{lean_id(f)} := {default_of(world, t)}" for f, t in st.fields]
             body = "{ " + ", ".join(vals) + " }" if vals else f"{name}.mk"
-            out = f"def {lname} : {ty_lean(sty)} :=\n  {body}"
+            out = with_attr(world, f"def {lname} : {ty_lean(sty)} :=\n  {body}")
             world.fns[(name, fname)] = Fn(lname, "none", sty, [], sty)
         else:
             for f, _ in st.fields:
@@ -3104,7 +3435,7 @@ def translate(world, text, raw, container, kind, name, opts):
                     raise Reject(f"constructor parameter named `{f}`")
             ps = " ".join(f"({lean_id(f)} : {ty_lean(t)})" for f, t in st.fields)
             body = "{ " + ", ".join(f"{lean_id(f)} := {lean_id(f)}" for f, _ in st.fields) + " }" if st.fields else f"{name}.mk"
-            out = f"def {lname} {tsig}{ps} : {ty_lean(sty)} :=\n  {body}"
+            out = with_attr(world, f"def {lname} {tsig}{ps} : {ty_lean(sty)} :=\n  {body}")
             world.fns[(name, fname)] = Fn(lname, "none", sty, list(st.fields), sty, st.generics)
         world.lean_names.add(lname)
         return out, sha, line
@@ -3183,31 +3514,56 @@ def translate(world, text, raw, container, kind, name, opts):
     parsed = p.fn()
     n, gs = parsed[0], parsed[1]
     assoc = {}
-    if container and container.startswith("impl") and " for " in container:
-        clo, chi, _, _ = find_container(text, container)
+    if assoc_span is not None:
+        clo, chi = assoc_span
         for m in re.finditer(r"\btype\s+(\w+)\s*=\s*([^;{}]+);", text[clo:chi]):
             if depth_at(text, clo, clo + m.start()) == 0:
                 assoc[m.group(1)] = [v for _, v in tokenize(m.group(2))][:-1]
     lname = (cname + "." if cname else "") + lean_id(n)
     key = (cname, n)
+    if loc is None and lname in world.aux_names and (key in world.fns or key in world.generic_fns):
+        # a table item that an earlier table item calls: it was already generated by lookup
+        world.aux_names.discard(lname)
+        new = [g for g in world.ctx.groups if g not in world.attr_groups.get(lname, set())]
+        if new and key in world.fns:
+            world.pending.append("attribute [" + ", ".join("gen_" + g for g in new) + f"] {lname}")
+            world.attr_groups[lname].update(new)
+        return (f"-- already generated above as `{lname}` (a translated caller listed earlier uses it)", sha, line)
     if key in world.fns or key in world.generic_fns or lname in world.lean_names:
         raise Reject(f"name clash: `{lname}` is generated twice")
     world.lean_names.add(lname)
+    world.aux_key = key
+    if loc is not None:
+        world.aux_names.add(lname)
+    clash = [g for g in gs if g in igs or g in world.structs or g in world.enums or g in world.opaque]
     if gs and parsed[2] != "none":
         # type parameters of a METHOD stay parameters (like those of its impl); bounds in `where` only name operators
-        clash = [g for g in gs if g in igs or g in world.structs or g in world.enums or g in world.opaque]
         if clash:
             raise Reject(f"type parameter `{clash[0]}` of the method shadows another type")
         out, fn = compile_fn(world, parsed, toks, cname, self_ty, lname, None, list(igs) + list(gs), assoc)
         world.fns[key] = fn
-        return out, sha, line
+        return with_attr(world, out), sha, line
     if gs:
+        # a generic fn without receiver.  First reading: its type parameters stay parameters (they are only stored /
+        # copied / compared for equality: e.g. an instrument key).  If the body needs more of `T` (arithmetic), the
+        # second reading applies: one type parameter, instantiated at the type of each call's arguments.
+        abstract = None
+        if not clash:
+            try:
+                abstract = compile_fn(world, parsed, toks, cname, self_ty, lname, None, list(igs) + list(gs), assoc)
+            except Reject:
+                abstract = None
+        if abstract is not None:
+            out, fn = abstract
+            world.fns[key] = fn
+            return with_attr(world, out), sha, line
         suffix = {DEC: "Decimal", INT: "i64", NAT: "u64"}
 
         def compile_instance(t, parsed=parsed, toks=toks, lname=lname):
             iname = f"{lname}_{suffix[t]}"
             out, fn = compile_fn(world, parsed, toks, cname, self_ty, iname, {gs[0]: t}, igs)
-            world.pending.append(f"/-- instance of the generic `{lname}` at `{ty_rust(t)}` -/\n{out}")
+            world.aux_names.add(iname)
+            world.pending.append(f"/-- instance of the generic `{lname}` at `{ty_rust(t)}` -/\n{with_attr(world, out)}")
             return fn
         # the body is checked once at Decimal so that a rejected construct is reported here, not at a call site
         compile_fn(world, parsed, toks, cname, self_ty, lname + "_check", {gs[0]: DEC}, igs)
@@ -3215,7 +3571,7 @@ def translate(world, text, raw, container, kind, name, opts):
         return (f"-- generic over `{gs[0]}`: instantiated below at the types it is called with", sha, line)
     out, fn = compile_fn(world, parsed, toks, cname, self_ty, lname, None, igs, assoc)
     world.fns[key] = fn
-    return out, sha, line
+    return with_attr(world, out), sha, line
 
 
 def main():
@@ -3238,7 +3594,6 @@ def main():
         else:
             sys.exit(__doc__)
     world = World()
-    cache = {}
     # one (sections, header) pair per generated file; an item goes to the file of its FIRST group
     sections, header = {1: [], 2: []}, {1: [], 2: []}
     errors, failed_groups = [], set()
@@ -3247,15 +3602,12 @@ def main():
         groups = group.split("+")
         fno = 1 if groups[0] in GROUPS else 2
         shown = f"{rel} :: " + (f"{container} :: " if container else "") + f"{kind} {name}"
-        world.pending = []
+        world.pending, world.aux_header = [], []
+        world.ctx = Ctx(groups, rel, container)
+        if kind in ("struct", "enum", "opaque"):
+            world.item_file.setdefault(name, rel)
         try:
-            path = os.path.join(REPO, rel)
-            if rel not in cache:
-                if not os.path.exists(path):
-                    raise Reject(f"source file {path} does not exist")
-                raw = open(path, encoding="utf-8").read()
-                cache[rel] = (raw, blank_comments(raw))
-            raw, text = cache[rel]
+            raw, text = world.source(rel)
             out, sha, line = translate(world, text, raw, container, kind, name, opts)
         except Reject as e:
             if kind == "fn" and container:
@@ -3267,19 +3619,23 @@ def main():
                 errors.append((g, f"rust2lean_sm: REJECTED {shown}: {e}"))
                 failed_groups.add(g)
             header[fno].append(f"  {shown}: NOT TRANSLATED ({e})")
+            header[fno] += world.aux_header
             if (groups[0], rel) != cur:
                 sections[fno].append(f"\n/-! ## {rel} -/")
                 cur = (groups[0], rel)
+            for inst in world.pending:       # auxiliary items / instances translated before the rejection stay defined
+                sections[fno].append("\n" + inst)
             sections[fno].append(f"\n-- NOT TRANSLATED: {kind} {name}: {e}")
             continue
         if (groups[0], rel) != cur:
             sections[fno].append(f"\n/-! ## {rel} -/")
             cur = (groups[0], rel)
         header[fno].append(f"  {shown}  (line {line})  sha256[:16]={sha}")
+        header[fno] += world.aux_header
         where = (container + " :: " if container else "") + f"{kind} {name}"
         for inst in world.pending:
             sections[fno].append("\n" + inst)
-        if out.startswith("-- generic") or out.startswith("-- extern"):
+        if out.startswith("-- generic") or out.startswith("-- extern") or out.startswith("-- already"):
             sections[fno].append(f"\n-- `{where}` ({rel}:{line}) {out[3:]}")
         else:
             lead = ""
@@ -3291,9 +3647,14 @@ def main():
              "`./check` for the properties whose props/Cxx.py names it in PREBUILD; the committed copy is the output for\n"
              "the pinned tree.  State machines: a `&mut self` method is a pure function returning the new state and the\n"
              "result; the meaning of the scalar vocabulary is fixed in the prelude below.  The agreement with the\n"
-             "hand-written models is proved in Lemmas/KernelsAgree/{Sequencer,Drawdown,PositionSM,Connectivity}.lean.\n\n"
+             "hand-written models is proved in Lemmas/KernelsAgree/{Sequencer,Drawdown,PositionSM,Connectivity}.lean.\n"
+             "Every definition carries the simp attribute `gen_<group>` of the group(s) it was generated for (registered in\n"
+             "Generated/Attr.lean), auxiliary items found by lookup included, so that `simp only [gen_<group>]` unfolds\n"
+             "everything generated for a group whatever the helper functions of the source are called.\n\n"
              "Source items (file :: item, line, hash of the item's source text):\n"
-             + "\n".join(header[1]) + "\n-/\nnamespace BarterModel.Generated.Machines\n\n" + PRELUDE + "\n".join(sections[1])
+             + "\n".join(header[1]) + "\n-/\nimport BarterModel.Generated.Attr\n"
+             "set_option linter.unusedVariables false   -- e.g. the `Ok(x)` binder of a `?` whose value is discarded\n"
+             "namespace BarterModel.Generated.Machines\n\n" + PRELUDE + "\n".join(sections[1])
              + "\n\nend BarterModel.Generated.Machines\n")
     text2 = ("import BarterModel.Generated.Machines\n"
              "/-\nGENERATED FILE -- DO NOT EDIT.  Second output file of tools/rust2lean_sm.py (same namespace as, and importing,\n"
